@@ -11,9 +11,10 @@ CONSTANTS
   WScrypt = "low"
   MaxObj = 3
   MaxOps = 5
-  Acts = {"New", "Import", "Delete", "SetDefault", "SetLabel", "ChangePassword", "ChangeScheme", "Reload"}
+  Acts = {"New", "Import", "Delete", "SetDefault", "SetLabel", "ChangePassword", "ChangeScheme", "Reload", "SetFault", "ClearFault"}
   NewIgnoresWalletScrypt = FALSE
   DupAddrImport = FALSE
 VIEW view
 INVARIANTS TypeOK Saved Persist Opens OneDefault
+PROPERTIES FailNoChange
 CHECK_DEADLOCK FALSE
